@@ -118,6 +118,8 @@ def run(tier):
         for p in _drv.PRECS:
             misc.drop_row_alignment(chk, 'C15.droprow', prog, p, cfgname)
             misc.hole_fill_rule(chk, 'C15.droprow', prog, p, cfgname)
+        chk.clause('C15.qselect', 'quick-select partition: each scan and the move after it are complements (progress on ties)')
+        misc.partition_complement_rule(chk, 'C15.qselect', prog, cfgname)
         if k < 9:
             raise AnalysisBroken('C15: %d loops up to relax_end[] found, floor 9' % k)
         if cfgname == 'tested':
